@@ -527,4 +527,6 @@ def run(ctx):
     r02f(ctx)     # the size-derived cap of compound edits is an upper bound only if no node has size 0
     from .c04 import r04d
     r04d(ctx)
+    from .c07 import r07l
+    r07l(ctx)     # the annotated tree of a comparison carries that comparison's edits only (fresh edit state per edited copy)
     ctx.assume("arithmetic inside the third-party assignment solver and numpy accumulation is not analysed")
